@@ -45,6 +45,26 @@ def run_case(case, tier):
             from .. import multiconf
             recs, d2 = multiconf.build(rng, base=recs)
             desc["multiconf"] = d2.get("mode")
+    if case["kind"] != "file" and rng.random() < 0.35:
+        # the hetero block of a homo-oligomer: one ion (or small ligand) per chain, all with the same residue
+        # name and number, written one after the other at the end of the file
+        from .. import fragments
+        fname = rng.choice(("ion:CL", "ion:ZN", "ion:CA", "ion:MG", "acetate", "ammonium"))
+        num = rng.choice((160, 201, 501, 1))
+        chs = sorted({r.chain for r in recs if r.raw is None and r.tag == "ATOM  "})
+        block = []
+        for ch in chs:
+            mine = [r for r in recs if r.raw is None and r.chain == ch and r.tag == "ATOM  "]
+            if not mine:
+                continue
+            frag, _e, _d = fragments.place_near(recs + block, fname, rng, anchor=rng.choice(mine), dist_A=rng.choice((3.5, 4.5, 6.0)),
+                                                chain=ch, resnum=num)
+            if frag:
+                block += frag
+        if block and sources.identities_unique(recs + block):
+            recs = recs + block
+            classes.append("same-numbered-hetero-residue-per-chain")
+            desc["hetero"] = True
     if rng.random() < 0.3:
         recs = [r for r in recs if r.raw is None or r.tag != "TER   " or rng.random() < 0.5]
     if rng.random() < 0.3:
